@@ -65,7 +65,7 @@ def Levels.decC : RC Levels := fun d p => do
     if version ∈ G3.levelsVersions then CE.ok (x, p) else CE.error .valueError
   else CE.error .assertionError
 
-def Levels.cc : CC Levels := CC.hand Levels.codec Levels.decC "Levels" 3 72 292 [⟨"fixed", 10⟩, ⟨"count", 10⟩]
+def Levels.cc : CC Levels := CC.hand Levels.codec Levels.decC "Levels" 3 71 292 [⟨"fixed", 10⟩, ⟨"count", 10⟩]
 
 /-! ## PhotoFilter -/
 
